@@ -295,6 +295,15 @@ func (c *Ctx) r043(pk *packages.Package) {
 // C09
 
 func runC09(c *Ctx) {
+	runC09own(c)
+	if pk := c.P.Pkg("js"); pk != nil {
+		// a reserved word handed out as a name, or `in` without parentheses in a for-init, is output the parser rejects
+		c.alsoUnder(map[string]string{"R02.3": "R09.5"}, nil, func() { c.r023(pk) })
+		c.alsoUnder(map[string]string{"R01.16": "R09.6"}, nil, func() { c.r0116(pk) })
+	}
+}
+
+func runC09own(c *Ctx) {
 	const rule = "R09.1"
 	c.R.Rule(rule, "in jsMinifier.minifyStmt, for each case whose node type is an ECMA-262 production terminated by `;` (ExprStmt, VarDecl, ReturnStmt, BranchStmt, ThrowStmt, DebuggerStmt, ImportStmt, ExportStmt, DirectivePrologueStmt), every path from an emission (m.write / a printer call) to the end of the case passes m.requireSemicolon() or a delegation to minifyStmt; the only bypass is the outcome `exported declaration is a function or class`. In minifyClassDecl, every path from the printing of a field name to the next class element passes requireSemicolon()")
 	pk := c.pkg(rule, "js")
